@@ -60,6 +60,23 @@ theorem gen_loopStep_eq (idx todo : Int) : NV.Gen.C11.loopStep idx todo = (idx +
 theorem gen_loopContinues_eq (f : Bool) : NV.Gen.C11.loopContinues (if f then 1 else 0) = !f := by
   cases f <;> decide
 
+/-- **statement order of destruct_object**: inventory hooks, then set_heart_beat (ob, 0), then the O_DESTRUCTED store -/
+theorem gen_destructOrder_eq : NV.Gen.C11.destructOrder = [0, 1, 2] := rfl
+
+theorem destructLeaf_ref (w : World) (t : Nat) :
+    destructLeaf w t = { setHeartBeat w t 0 with dead := t :: (setHeartBeat w t 0).dead,
+                                                 inv := (setHeartBeat w t 0).inv.filter (fun p => p.1 != t) } := by
+  unfold destructLeaf; rw [gen_destructOrder_eq]; rfl
+
+theorem destructFull_ref (w : World) (t : Nat) :
+    destructFull w t =
+      if (hooksPhase w t).1.alive t then (destructLeaf (hooksPhase w t).1 t, (hooksPhase w t).2, true)
+      else ((hooksPhase w t).1, (hooksPhase w t).2, false) := by
+  unfold destructFull destructLeaf
+  rw [gen_destructOrder_eq]
+  simp only [List.foldl, fullPhase, leafPhase, if_true, List.nil_append]
+  cases (hooksPhase w t).1.alive t <;> simp
+
 theorem cursorStep_ref (w : World) :
     cursorStep w = ({ w with idx := w.idx + 1 }, decide (w.idx + 1 = w.todo) || w.flag) := by
   unfold cursorStep
